@@ -239,8 +239,25 @@ fn main() {
                 .map(|id| num[id])
                 .collect();
             order.reverse();
-            if order != (0..n).collect::<Vec<_>>() {
-                ctx.note(format!("case {i}: index order {order:?} is not the creation order"));
+            // position of every commit (creation number -> index position); the two sides of a
+            // fork may come out in either order (the operation with the older timestamp is kept)
+            let mut pos_of = vec![usize::MAX; n];
+            for (p, &x) in order.iter().enumerate() {
+                pos_of[x] = p;
+            }
+            if order.len() != n {
+                ctx.note(format!("case {i}: all() lists {} of {n} commits", order.len()));
+            }
+            for t in steps.iter_mut() {
+                if let TStep::Fork(a, b) = t {
+                    let first = |side: &Vec<Step>| {
+                        side.iter().find_map(|s| if let Step::Commit(x) = s { Some(pos_of[*x]) } else { None })
+                    };
+                    if first(a) > first(b) {
+                        std::mem::swap(a, b);
+                        ctx.count("fork sides swapped by operation order");
+                    }
+                }
             }
 
             // tree values over the path universe (directories count as absent)
@@ -278,8 +295,9 @@ fn main() {
             // the implementation's stored sets and range
             let pidx: HashMap<String, usize> =
                 PATHS.iter().enumerate().map(|(x, p)| (p.to_string(), x)).collect();
-            let stored: Vec<Option<Vec<usize>>> = commits
+            let stored: Vec<Option<Vec<usize>>> = order
                 .iter()
+                .map(|&x| &commits[x])
                 .map(|c| {
                     repo.index()
                         .changed_paths_in_commit(c.id())
@@ -313,7 +331,7 @@ fn main() {
             let eval = |repo: &dyn Repo, m: &Vec<usize>| -> Vec<usize> {
                 let expr = ResolvedRevsetExpression::all()
                     .filtered(RevsetFilterPredicate::File(fileset(m)));
-                let mut v: Vec<usize> = listing(repo, expr).iter().map(|id| num[id]).collect();
+                let mut v: Vec<usize> = listing(repo, expr).iter().map(|id| pos_of[num[id]]).collect();
                 v.sort();
                 v
             };
@@ -359,13 +377,17 @@ fn main() {
             );
             let indexed = stored.iter().filter(|s| s.is_some()).count();
             let shape = format!(
-                "builds={} forks={} merges={} conflicts={} indexed={}",
-                builds.min(3),
+                "builds={} forks={} indexed={}",
+                builds.min(2),
                 forks,
-                merges.min(2),
-                (conflicts > 0) as u8,
                 if indexed == 0 { "none" } else if indexed == n { "all" } else { "part" }
             );
+            if conflicts > 0 {
+                ctx.count("(cases with a conflicted merged-parents tree)");
+            }
+            if merges > 0 {
+                ctx.count("(cases with merge commits)");
+            }
             ctx.emit(i, term, indexed > 0 && n >= 4, &shape);
         }
     });
